@@ -249,7 +249,7 @@ func genAtom(t *rapid.T) node {
 		rng := rapid.SampledFrom([][4]int{{500, 600, 0, 600}, {500, 600, 200, 300}, {502, 505, 0, 600}, {400, 500, 0, 600}, {200, 300, 0, 600}, {500, 600, 200, 600}}).Draw(t, "ranges")
 		return &atomNode{kind: "code", a: rng[0], b: rng[1], c: rng[2], d: rng[3], op: op, fthr: rapid.SampledFrom([]float64{0, 0.2, 0.3, 0.5, 0.5, 1, 2}).Draw(t, "thr")}
 	}
-	return &atomNode{kind: "lat", q: rapid.SampledFrom([]float64{50, 90, 99, 100, 25}).Draw(t, "q"), op: op, ithr: rapid.SampledFrom([]int{0, 5, 50, 500, 2000}).Draw(t, "ithr")}
+	return &atomNode{kind: "lat", q: rapid.SampledFrom([]float64{50, 90, 99, 100, 25, 0.5, 0.1}).Draw(t, "q"), op: op, ithr: rapid.SampledFrom([]int{0, 5, 50, 500, 2000}).Draw(t, "ithr")}
 }
 
 func genExpr(t *rapid.T, depth int) node {
